@@ -144,6 +144,10 @@ Edits(nb) ==
   (IF n = 0 THEN {} ELSE
    { <<[a |-> "EditSource", pos |-> 1, v |-> v], SetField(1, "src", v)>> : v \in 5..8 })
   \cup
+  \* convert a cell to another type, keeping its identity (code <-> markdown: outputs / execution count go or come)
+  { <<[a |-> "ChangeKind", pos |-> i],
+      SetField(i, "kind", IF nb.cells[i].kind = "code" THEN "markdown" ELSE "code")>> : i \in 1..n }
+  \cup
   \* give a cell a new identity (both sides may re-id the same cell differently)
   { <<[a |-> "ReId", pos |-> i, v |-> c], SetField(i, "cid", c)>> : i \in 1..n, c \in fresh }
   \cup
